@@ -13,7 +13,7 @@ RULE = (
 ASSUMPTIONS = [
     "C-implemented managers (threading.Lock) are excluded: set_trickery_enabled's documentation states the referents analysis cannot see managers whose __exit__ is not a Python function named __exit__",
     "same program world and shadow as C01; F.entering is set by the managers themselves (may stay set if an __aenter__ is abandoned by close(): more permissive, never stricter)",
-    "the thread-switching leg of set_trickery_enabled is in the threads leg (see DESIGN.md)",
+    "switch legs: thread switches at operation granularity (baton); pre-emption inside _check_trickery_available itself is not simulated",
 ]
 REAL_VS_STUB = {"real": ["stackscope", "gc.get_referents", "CPython of each leg"], "stub": ["generated programs", "shadow managers", "driver", "injected RuntimeError at analysis steps"]}
 RARE_PROBES = ["c20_extras_seen", "trickery_step_raises:inspect_frame", "trickery_step_raises:analyze_with_blocks", "trickery_step_raises:currently_exiting_context"]
@@ -24,7 +24,90 @@ for py, nq in (("3.12", 9000), ("3.11", 4500), ("3.10", 4500), ("3.9", 4500)):
     LEGS.append({"name": "fault" + tag, "python": py, "quick": nq // 9, "thorough": nq * 2, "quick_s": 40, "thorough_s": 300, "params": {"mode": "fault"}})
 
 
+LEGS.append({"name": "switch312", "python": "3.12", "quick": 1500, "thorough": 40000, "quick_s": 40, "thorough_s": 300, "params": {"mode": "switch"}, "run_timeout": 90})
+LEGS.append({"name": "switch39", "python": "3.9", "quick": 600, "thorough": 15000, "quick_s": 30, "thorough_s": 200, "params": {"mode": "switch"}, "run_timeout": 90})
+
+
+def run_switch(ctx):
+    """(c) sequences of set_trickery_enabled(True/False/None) interleaved with extractions on
+    2-3 baton threads: every extraction that starts after a set has returned uses that mode."""
+    import contextlib
+    import threading
+
+    import stackscope
+    from stackscope import _lowlevel as ll
+    from ..kernel import Violation
+    from ..sched.baton import Baton
+
+    t = ctx.tape
+
+    class M(object):
+        def __enter__(self):
+            return self
+
+        def __exit__(self, *a):
+            return False
+
+    def holder():
+        with M() as target_name:
+            yield 1
+
+    g = holder()
+    next(g)
+    n = 2 + t.choose(2)
+    baton = Baton(t, ctx)
+    state = {"mode": None}  # model: the last value set (None = auto-detect = trickery on CPython)
+    problems = []
+    trace = []
+    plans = []
+    for i in range(n):
+        plans.append([(t.choose(4), t.choose(3)) for _ in range(2 + t.choose(5))])
+    ctx.case = {"threads": n, "plans": plans}
+
+    def worker(plan, name):
+        def fn():
+            for (op, val) in plan:
+                baton.yield_("op")
+                if op == 0:
+                    v = (True, False, None)[val]
+                    ll.set_trickery_enabled(v)
+                    state["mode"] = v
+                    trace.append((name, "set", str(v)))
+                else:
+                    expect_trickery = state["mode"] is not False
+                    st = stackscope.extract(g)
+                    c = st.frames[0].contexts
+                    got_trickery = bool(c) and c[0].start_line is not None
+                    trace.append((name, "extract", got_trickery))
+                    ctx.stat("switch_extractions")
+                    if len(c) != 1 or not isinstance(c[0].obj, M):
+                        problems.append(("c20_switch_contexts", "contexts %r" % (c,)))
+                    elif got_trickery != expect_trickery:
+                        problems.append((
+                            "c20_mode_not_applied",
+                            "thread %s: extraction started after set_trickery_enabled(%r) returned, but used the %s analysis; trace %r"
+                            % (name, state["mode"], "trickery" if got_trickery else "referents", trace[-6:]),
+                        ))
+
+        return fn
+
+    try:
+        for i in range(n):
+            baton.spawn("T%d" % i, worker(plans[i], "T%d" % i))
+        baton.run()
+    finally:
+        ll.set_trickery_enabled(None)
+        g.close()
+    ctx.log("switch", tuple(trace))
+    ctx.cover(repr(("switch", tuple((a, b) for (_, a, b) in trace)[:10])))
+    ctx.sample = {"trace": trace[:30]}
+    if problems:
+        raise Violation(problems[0][0], problems[0][1], {"trace": trace[:40]})
+
+
 def run(ctx):
+    if ctx.params.get("mode") == "switch":
+        return run_switch(ctx)
     progworld.run_program(ctx, ["c20"], force={"probe": False, "passive": False}, probe=False, battery_cls=observe.C20Battery)
 
 
